@@ -1689,7 +1689,7 @@ func (w *c02World) blip(u *c02User, quick bool, protocol db.CBMobileSubprotocolV
 			return
 		}
 		w.e.nreq++
-		if !c02Wait(&changesDone, 20*time.Second) || !c02Wait(&revsDone, 20*time.Second) {
+		if !c02Wait(&changesDone, 120*time.Second) || !c02Wait(&revsDone, 120*time.Second) {
 			w.e.fail("blip_timeout", v.name, map[string]any{"world": w.tag, "user": u.name}, "pull did not finish")
 			return
 		}
